@@ -23,12 +23,18 @@ var hostPool = []string{
 	"::1", "::", "2001:db8::1", "2001:0db8:0000:0000:0000:ff00:0042:8329", "fe80::1", "::ffff:1.2.3.4", "::ffff:0102:0304", "1:2:3:4:5:6:7:8", "1:2:3:4:5:6:7::", "::2:3:4:5:6:7:8", "2001:db8::1.2.3.4", "1:2:3:4:5:6:1.2.3.4",
 	"localhost", "example.com", "i2p-projekt.i2p", "a", "router", "xn--nxasmq6b.example", "1.2.3", "1.2.3.4.5", "256.1.1.1", "1.2.3.256", "01.2.3.4", "1.2.3.04", "1.2.3.4.", ".1.2.3.4", "1..3.4",
 	"1.2.3.4:80", "[::1]", "[::1]:80", "::1%eth0", "fe80::1%1", " 1.2.3.4", "1.2.3.4 ", "1.2.3.4\n", "\t::1", "1.2.3.4/24", "::1/128", "0x7f.0.0.1", "1.2.3.-4", "+1.2.3.4", "１.２.３.４",
+	// the longest literals: eight full groups (39 characters), six groups and a dotted quad (up to 45)
+	"ffff:ffff:ffff:ffff:ffff:ffff:ffff:ffff", "ffff:ffff:ffff:ffff:ffff:ffff:255.255.255.255", "2001:0db8:85a3:0000:0000:8a2e:192.168.100.200", "0000:0000:0000:0000:0000:ffff:192.168.100.200",
+	"0000:0000:0000:0000:0000:0000:0000:0001", "2001:0db8:85a3:08d3:1319:8a2e:0370:7344", "ffff:ffff:ffff:ffff:ffff:ffff:255.255.255.2555", "ffff:ffff:ffff:ffff:ffff:ffff:ffff:ffff:ffff", "00000:0:0:0:0:0:0:1",
 	"", "1:2:3:4:5:6:7:8:9", "1::2::3", ":::", "::g", "12345::1", "1:2:3:4:5:6:7", "::ffff:1.2.3", "::1.2.3.4.5", "1.2.3.4::", "2001:DB8::A", "::FFFF:1.2.3.4", "0:0:0:0:0:ffff:1.2.3.4",
 }
 
 var portPool = []string{
 	"1", "80", "1234", "65535", "9", "10000", "443",
 	"0", "65536", "70000", "99999999999", "9223372036854775807", "9223372036854775808", "18446744073709551616",
+	// digit strings that denote k*2^64+p, k*2^32+p, k*2^16+p for a valid port p (an accumulator without overflow check wraps onto p)
+	"18446744073709551696", "18446744073709551617", "36893488147419103312", "184467440737095516160080", "4294967376", "4294967297", "8589934672", "65616", "65537", "131152", "4295032831", "18446744073709617151",
+	"340282366920938463463374607431768211536", "000000000000000000000080", "00000000000000000000000000000000000000000065535", "000000000000000000000000000000000000000000065536",
 	"-1", "-80", "+80", "+0", "-0", "00080", "080", "0080", "000", "0x50", "1e3", "80.0", "80 ", " 80", "80\n", "８０", "", "port", "8 0", "+", "-", "++80", "+-80", "1_000", "65535.", "٨٠",
 }
 
